@@ -4,13 +4,13 @@ Direct oracle on the real binary: prefix SEI NAL units crafted by vlib/hevcgen.p
 HDR10+ message first / middle / last / absent, payload sizes across the 255 / 510 FF-extension boundaries,
 payloads full of emulation-prevention patterns, T.35 messages of other providers, truncated HDR10+ headers)
 placed in streams as C05; commands convert, demux, remove, mux, inject-rpu with and without the option; outputs
-compared with the reference (vlib/cliref.py) which drops / rewrites the SEI NALs with an independent SEI walker."""
+compared with the reference (vlib/hevcref.py) which drops / rewrites the SEI NALs with an independent SEI walker."""
 import os
 
 from . import common
 from . import hevcgen as H
-from . import cliref as F
-from . import clirun as R
+from . import hevcref as F
+from . import hevcrun as R
 
 HOOK = "DOVI_TOOL_VERIF_CHUNK_SIZE"
 REAL_CHUNK = 100000
@@ -55,7 +55,8 @@ def no_hdr10plus_left(got):
     for _, p in got:
         if H.nal_type(p) == H.SEI_PREFIX:
             try:
-                if any(H.is_hdr10plus(m) for m in H.parse_sei(p)):
+                # judged on the payload without trailing zero bytes (see hevcref.rpu_norm)
+                if any(H.is_hdr10plus(m) for m in H.parse_sei(H.esc(F.rpu_norm(p)))):
                     return False
             except (ValueError, IndexError):
                 return None
@@ -109,6 +110,8 @@ def run_job(job):
     for name, e in job["expected"].items():
         got = F.read_split(outs[name])
         ok, msg, notes = F.compare(got, e, check_sc=False)
+        for kk, vv in notes.items():
+            out["notes"][kk] = out["notes"].get(kk, 0) + vv
         if not ok:
             # locate the SEI NAL concerned, in terms of messages
             det = ""
@@ -155,7 +158,7 @@ def run(ctx):
     pool = H.rpu_pool(rng.fork("pool"), 80 if quick else 300, max_len=500)
     rpus = [r for r, _ in pool]
     conv = F.Conv()
-    sets = crafted_sei_sets(rng.fork("sei"), 14 if quick else 160)
+    sets = crafted_sei_sets(rng.fork("sei"), 60 if quick else 700)
     sets = rng.shuffle(sets)
     ctx.count("crafted SEI NALs", len(sets))
     jobs = []
@@ -216,23 +219,28 @@ def run(ctx):
                     # inject on the base layer: the reference works on a stream view without EL / RPU
                     job["expected"] = {"out": F.ref_inject(_bl_view(st), fresh, no_add_aud=c["no_add_aud"], start_code=c["start_code"], drop=drop)}
                 jobs.append(job)
-    # ---- class tz: trailing zero bytes behind SEI NALs (framing bytes that the tool hands to the SEI walker)
+    # ---- class tz: trailing zero bytes (trailing_zero_8bits) behind SEI NALs, 1..3 of them, next start code 3 or 4 bytes
     tz_jobs = []
-    for i in range(6 if quick else 60):
-        r = rng.fork("tz%d" % i)
-        specs = H.gen_structure(r, 3, poc_bits=8)
-        st = H.build_stream(r, H.Codec(ps), specs, r.shuffle(rpus)[:3], el="none", prefix_sei=(0, 0), suffix_sei=(0, 0), tz=0, sc="four",
-                            aud="canonical", eos="none")
-        ss = crafted_sei_sets(r, 1)
-        replace_prefix_sei(st, r, r.shuffle(ss))
-        ntz = 1 + r.below(3)
-        for n in st.nals():
-            if n.role == "psei":
-                n.tz = ntz
-        c = {"cmd": "convert", "drop": True, "chunk": r.choice([257, None]), "stdin": False}
-        job = {"cfg": c, "sid": 5000 + i, "st": st, "data": st.render(), "nhdr": 1, "tz": ntz,
-               "expected": F.ref_general(F.items_of(st), "convert", conv, drop=True)}
-        tz_jobs.append(job)
+    tz_n = 0
+    for rep in range(1 if quick else 8):
+        for k, pos in ((1, 0), (2, 0), (2, 1), (3, 1), (1, -1), (4, 2)):
+            for ntz in (1, 2, 3):
+                for nsc in (3, 4):
+                    r = rng.fork("tz%d" % tz_n)
+                    tz_n += 1
+                    specs = H.gen_structure(r, 2, poc_bits=8)
+                    st = H.build_stream(r, H.Codec(ps), specs, r.shuffle(rpus)[:2], el="none", prefix_sei=(0, 0), suffix_sei=(0, 0), tz=0,
+                                        sc="four", aud="canonical", eos="none", max_slices=1, pad=(2, 6), rich_filler=False)
+                    for au in st.aus:
+                        msgs = [H.hdr10plus_message(r, size=r.choice(HDR_SIZES), style="safe") if j == pos else H.other_message(r, "other")
+                                for j in range(k)]
+                        i = next(i_ for i_, n in enumerate(au.nals) if n.role == "slice")
+                        au.nals.insert(i, H.Nal(H.sei_nal(msgs), "psei", 4, ntz))
+                        au.nals[i + 1].sc = nsc
+                    c = {"cmd": "convert", "drop": True, "chunk": r.choice([257, None]), "stdin": False}
+                    cls = "absent" if pos < 0 else ("only" if k == 1 else "multi")
+                    tz_jobs.append({"cfg": c, "sid": 5000 + tz_n, "st": st, "data": st.render(), "nhdr": 1, "tz": ntz, "tzcls": cls,
+                                    "nsc": nsc, "expected": F.ref_general(F.items_of(st), "convert", conv, drop=True)})
 
     with R.Work("C18") as work:
         for j in jobs + tz_jobs:
@@ -247,18 +255,20 @@ def run(ctx):
             ctx.count("outcome=" + ("FAIL" if o["fail"] else "ok"))
             if not o["fail"] and c["drop"] and j["nhdr"]:
                 ctx.nontriv("%d/%s" % (j["sid"], c["cmd"]))
-            if k % 41 == 0:
+            if k % 97 == 0:
                 ctx.sample("stream#%d (%d frames, %d HDR10+ SEI): %s" % (j["sid"], len(j["st"].aus), j["nhdr"], o["cmd"].replace(work.dir, "$W")))
             if o["fail"]:
                 _report(ctx, work, j, o)
-        # trailing-zero class: evaluated with the same oracle, reported under its own heading
+        # trailing-zero class: same oracle, own histogram keys
         res_tz = R.pmap(run_job, tz_jobs)
-        bad = [o for o in res_tz if o["fail"]]
         ctx.evaluations += len(res_tz)
-        ctx.count("class=tz runs", len(res_tz))
-        ctx.count("class=tz deviating", len(bad))
-        for o in bad:
-            _report(ctx, work, o["job"], o, tz=True)
+        for o in res_tz:
+            j = o["job"]
+            ctx.count("class=tz hdr10plus=%s zeros=%d next_sc=%d -> %s" % (j["tzcls"], j["tz"], j["nsc"], "DEVIATES" if o["fail"] else "ok"))
+            for kk, vv in o["notes"].items():
+                ctx.count("note:" + kk, vv)
+            if o["fail"]:
+                _report(ctx, work, j, o, tz=True)
         # third-party edge: payload type >= 255
         probe = _probe_big_type(work, ps, rpus)
         ctx.notes.append("probe: prefix SEI with payload type 300 through `--drop-hdr10plus convert`: %s" % probe)
